@@ -362,13 +362,29 @@ func (e *Engine) Run(t *tape.Tape, keep bool) *sim.Result {
 	// window by chance.
 	sweep := t.Draw(2) == 1
 	sweepPick := t.Draw(1 << 12)
+	// a second sweep, over the points right after a call that received package-level
+	// storage by reference (a shared scratch buffer, a table handed to a callee that
+	// may write it): two callers RUN output-heavy programs, one is pre-empted at a
+	// chosen occurrence of one such site and comes back after half, nearly all, or
+	// all of the other caller's work.
+	storageSweep := sweep && sweepPick%2 == 1
 	if sweep {
 		pa, pb := 0, 1+(sweepPick%2)*2 // hello_a with strings_b or iface_d: few scenarios, so baselines are cached
 		sc.Tasks = [][]Call{{{API: "BuildFile", Prog: pa}}, {{API: "BuildFile", Prog: pb}}}
+		if storageSweep {
+			sc.Tasks = [][]Call{{{API: "RunCode", Prog: progIndex("ints_o")}}, {{API: "RunCode", Prog: progIndex("ints_p")}}}
+			if sweepPick/2%2 == 1 {
+				sc.Tasks[0], sc.Tasks[1] = sc.Tasks[1], sc.Tasks[0]
+			}
+		}
 		sm.Tasks = []string{callKey(sc.Tasks[0][0]), callKey(sc.Tasks[1][0])}
 		keyParts = []string{"sweep", sm.Tasks[0], sm.Tasks[1]}
 		d = 1
-		res.Probes["lock_window_sweep_runs"]++
+		if storageSweep {
+			res.Probes["shared_storage_window_sweep_runs"]++
+		} else {
+			res.Probes["lock_window_sweep_runs"]++
+		}
 	}
 	sm.D = d
 	var fracs []int
@@ -449,20 +465,50 @@ func (e *Engine) Run(t *tape.Tape, keep bool) *sim.Result {
 		sort.Ints(ids)
 		for _, sid := range ids {
 			cnt := e.calibS[skey][sid]
-			if sid < len(e.sites) && e.sites[sid].Kind == "lock" && cnt <= 8 {
+			if sid >= len(e.sites) {
+				continue
+			}
+			if !storageSweep && e.sites[sid].Kind == "lock" && cnt <= 8 {
 				for k := int64(1); k <= cnt; k++ {
 					pairs = append(pairs, pair{sid, k})
 				}
 			}
+			if storageSweep && strings.HasPrefix(e.sites[sid].Kind, "after_") && strings.HasSuffix(e.sites[sid].Kind, "_global_ref") {
+				// first and last execution of the site
+				pairs = append(pairs, pair{sid, 1})
+				if cnt > 1 {
+					pairs = append(pairs, pair{sid, cnt})
+				}
+			}
+		}
+		if storageSweep && sweepPick/4%2 == 0 {
+			// half of these sweeps go to the scratch-buffer idiom proper: the result of a
+			// call that received the shared storage is consumed by the enclosing call
+			var nested []pair
+			for _, pr := range pairs {
+				if e.sites[pr.sid].Kind == "after_call_with_global_ref" {
+					nested = append(nested, pr)
+				}
+			}
+			if len(nested) > 0 {
+				pairs = nested
+			}
 		}
 		if len(pairs) > 0 {
 			pr := pairs[(sweepPick/25)%len(pairs)]
-			sitePts[pr.sid] = []int64{pr.k}
 			frac := []int64{2, 4, 5, 6, 7}[(sweepPick/25/len(pairs))%5]
+			if storageSweep {
+				pr = pairs[(sweepPick/8)%len(pairs)]
+				frac = []int64{16, 16, 7}[(sweepPick/8/len(pairs))%3] // 16: the other caller finishes first
+				res.Probes["shared_storage_window_pairs_in_scenario"] = len(pairs)
+			}
+			sitePts[pr.sid] = []int64{pr.k}
 			returns = []int64{n / 2 * frac / 8}
 			targets = []int{1, 0, 1, 0, 1, 0, 1, 0, 1, 0}
 			sm.Sites = append(sm.Sites, fmt.Sprintf("sweep: %s occurrence %d, return after %d yields", e.sitePos(pr.sid), pr.k, returns[0]))
-			res.Probes["lock_window_pairs_in_scenario"] = len(pairs)
+			if !storageSweep {
+				res.Probes["lock_window_pairs_in_scenario"] = len(pairs)
+			}
 		}
 		d = 0
 	}
